@@ -26,11 +26,14 @@ type c12Enc struct {
 	Segs1    []int        `json:"segs1"`
 	Segs2    []int        `json:"segs2"`
 	Armor    bool         `json:"armor"`
+	// Between: with the first segmentation, another complete encryption (and
+	// a decryption of its result) runs between two Writes
+	Between bool `json:"between,omitempty"`
 }
 
 // encryptObserved encrypts under a tape and checks full counts and hold-back
 // after every Write.
-func c12EncryptObserved(c c12Enc, segs []int) ([]byte, error) {
+func c12EncryptObserved(c c12Enc, segs []int, between bool) ([]byte, error) {
 	p := hx.ThePool()
 	plain := hx.PRG(11, c.PlainLen)
 	var recs []age.Recipient
@@ -79,6 +82,22 @@ func c12EncryptObserved(c c12Enc, segs []int) ([]byte, error) {
 				return
 			}
 			accepted += s
+			if between {
+				between = false
+				other := hx.PRG(12, chunk+700)
+				of, oerr := encryptLib([]age.Recipient{p.Recipient(hx.RecSpec{Kind: "x25519", Idx: 1})}, other, []int{100, chunk}, c.Armor)
+				if oerr == nil {
+					var got []byte
+					got, oerr, _ = decryptLib(of, hx.Delivery{Mode: "whole"}, []int{4096}, c.Armor, p.X25519Identity(1))
+					if oerr == nil && !bytes.Equal(got, other) {
+						oerr = fmt.Errorf("wrong plaintext")
+					}
+				}
+				if oerr != nil {
+					vio = pbt.Failf("C12/encrypt-failed", "the encryption run between two Writes of another one failed: %v", oerr)
+					return
+				}
+			}
 			if !c.Armor {
 				rep := (out.Buf.Len() - hdrLen) / refage.EncChunkSize * chunk
 				if (out.Buf.Len()-hdrLen)%refage.EncChunkSize != 0 {
@@ -116,17 +135,17 @@ func c12EncryptObserved(c c12Enc, segs []int) ([]byte, error) {
 
 func c12CheckEnc(c c12Enc, st *stats.Run) error {
 	nontrivial := chunksOf(c.PlainLen) >= 2
-	st.Case(nontrivial, stats.HashJSON(c), "enc", "enc:"+chunkLabel(c.PlainLen), "enc:"+segLabel(c.Segs1, c.PlainLen), "enc:"+segLabel(c.Segs2, c.PlainLen), fmt.Sprintf("enc:armor=%v", c.Armor))
+	st.Case(nontrivial, stats.HashJSON(c), "enc", "enc:"+chunkLabel(c.PlainLen), "enc:"+segLabel(c.Segs1, c.PlainLen), "enc:"+segLabel(c.Segs2, c.PlainLen), fmt.Sprintf("enc:armor=%v", c.Armor), fmt.Sprintf("enc:other-encryption-in-between=%v", c.Between))
 	st.Sample("encrypt-segmentations", c)
-	a, err := c12EncryptObserved(c, c.Segs1)
+	a, err := c12EncryptObserved(c, c.Segs1, c.Between)
 	if err != nil {
 		return err
 	}
-	b, err := c12EncryptObserved(c, c.Segs2)
+	b, err := c12EncryptObserved(c, c.Segs2, false)
 	if err != nil {
 		return err
 	}
-	one, err := c12EncryptObserved(c, nil)
+	one, err := c12EncryptObserved(c, nil, false)
 	if err != nil {
 		return err
 	}
@@ -285,6 +304,14 @@ func c12Read(file []byte, c c12Dec, d hx.Delivery, plan []int, hdrLen int, betwe
 				err = e
 				break
 			}
+			if between && k == 0 {
+				// and once more in the middle of the stream
+				of, oplain := c02Base(chunk+300, c.Seed+1001)
+				got, oerr, _ := decryptLib(of.Bytes(), hx.Delivery{Mode: "whole"}, []int{4096}, false, p.X25519Identity(0))
+				if oerr != nil || !bytes.Equal(got, oplain) {
+					return nil, "", nil, pbt.Failf("C12/harness", "the file decrypted in between failed: %v", oerr)
+				}
+			}
 		}
 		if err == io.EOF {
 			err = nil
@@ -404,7 +431,7 @@ func TestC12(t *testing.T) {
 		if rapid.Bool().Draw(t, "multi") {
 			l = rapid.SampledFrom([]int{chunk, chunk + 1, 2 * chunk, 2*chunk + 1, 3 * chunk, 150000}).Draw(t, "multiLen")
 		}
-		return c12Enc{TapeSeed: rapid.Uint64().Draw(t, "tape"), PlainLen: l, Recs: c05GenRecs(t), Segs1: genSegs(t, l), Segs2: genSegs(t, l), Armor: rapid.IntRange(0, 3).Draw(t, "armor") == 0}
+		return c12Enc{TapeSeed: rapid.Uint64().Draw(t, "tape"), PlainLen: l, Recs: c05GenRecs(t), Segs1: genSegs(t, l), Segs2: genSegs(t, l), Armor: rapid.IntRange(0, 3).Draw(t, "armor") == 0, Between: rapid.IntRange(0, 2).Draw(t, "between") == 0}
 	}, enc)
 
 	pbt.Each(s, "pipe", func(yield func(c12Pipe)) {
